@@ -243,6 +243,17 @@ R["C09"] = {"harnesses": [
     "assumptions": ["sync.Pool = per-pool LIFO stack (the behaviour of the runtime on one goroutine with GC off; the native replay runs with GC disabled)", "concurrency is C10 (not applicable)"],
     "outside_bound": ["histories longer than 3 calls", "the in-package inductive step on an arbitrary stale decodeState (DESIGN section 5 C09(d)) is not built"]}
 
+R["C17"] = {"harnesses": [
+    H("H_Codec_RoundTrip", [{"natoms": 1, "atommask": 2047, "pad": 0}, {"natoms": 1, "atommask": 1, "pad": 1}], [{"natoms": 2, "atommask": 2047, "pad": 0}, {"natoms": 1, "atommask": 2047, "pad": 1}], ["codec/object", "codec/roundtrip-end"],
+      "8 JSON templates (string, number, mixed array, object, nested object/array, escape-alphabet member name, array of objects, 23-digit integer) with symbolic leaves (numbers d.d / -d / dEd, strings of natoms escape-alphabet atoms, one-letter symbolic names), optionally padded with symbolic whitespace bytes at every structural position: UnmarshalValid -> Marshal / MarshalEscaped(false) read back as the same value; Compact / Indent / HTMLEscape keep value and member order; Indent = Compact re-indented; key lists of UnmarshalWithKeys / UnmarshalValidWithKeys in document order"),
+    H("H_Codec_Differential", [{"atommask": 2047}], None, ["codec/differential-end"],
+      "fork vs the standard library's encoding/json, BOTH executed from source: Marshal bytes and Unmarshal results for map[string]any, []any, []string, map[string]string, string and a harness-declared struct type with a renamed field, '-', omitempty, ',string', a nested pointer struct, a map field and an embedded struct; string leaves from the escape alphabet, bool symbolic, ints from {0,7,42}"),
+    H("H_C17_Fold", [{"ns": 2, "nt": 2}, {"ns": 1, "nt": 3}, {"ns": 2, "nt": 4}], [{"ns": 2, "nt": 2}, {"ns": 1, "nt": 3}, {"ns": 2, "nt": 4}, {"ns": 3, "nt": 3}, {"ns": 3, "nt": 5}], ["C17/fold/end"],
+      "equalFoldRight, asciiEqualFold, simpleLetterEqualFold vs a reference simple-fold comparison, under their documented preconditions: s = ns unconstrained ASCII bytes, t = nt unconstrained bytes (covers K/U+212A and S/U+017F)")],
+    "anchors": ["internal/json.UnmarshalValid", "internal/json.UnmarshalWithKeys", "internal/json.UnmarshalValidWithKeys", "internal/json.Marshal", "internal/json.MarshalEscaped", "internal/json.Compact", "internal/json.compact", "internal/json.Indent", "internal/json.HTMLEscape", "internal/json.equalFoldRight", "internal/json.asciiEqualFold", "internal/json.simpleLetterEqualFold"],
+    "assumptions": ["not covered (stated): run-time generated struct types (reflect.StructOf) - one fixed struct type only; Decoder/Encoder streams; float formatting with symbolic values (ints are concrete)", "reflect is a model (type/value semantics over the interpreter heap), shared by the fork and the standard library codec"],
+    "outside_bound": ["templates outside the 8 listed, strings longer than 2 atoms, fold operands longer than 3+5 bytes"]}
+
 if __name__ == "__main__":
     json.dump(R, open(os.path.join(V, "harness", "registry.json"), "w"), indent=1)
     print("registry:", sorted(R))
